@@ -40,14 +40,28 @@ void specialise(vh::Rng& r, const Sol& s, Draw& d, const std::vector<std::string
       if (!what.empty()) return;
     }
   }
+  // the steady inviscid corner: every temporal amplitude AND temporal wave number zero, viscosity / conductivity zero
+  if (r.below(8) == 0) {
+    for (auto& n : el) {
+      bool temporal = n.size() > 2 && n.back() == 't' && (n[n.size() - 2] == '_' || n.rfind("a_", 0) == 0);
+      if (temporal || n == "nu" || n == "mu" || n == "k") { d.set(n, 0.0L); what += n + "=0 "; }
+    }
+    if (!what.empty()) return;
+  }
+  // ratio of specific heats next to 1 (admissible: Gamma != 1), where 1/(Gamma-1) is large
+  if (s.stretch != 0 && r.below(8) == 0) for (auto& n : names) if (n == "Gamma" || n == "gamma") { d.set(n, 1.0L + r.sgn() * powl(2.0L, -(long double)(8 + r.below(40)))); what += n + "~1 "; }
   int k = 1 + r.below(3);
   for (int i = 0; i < k; i++) {
-    const std::string& n = el[(size_t)r.below((int)el.size())];
-    int kind = ok(n) == 1 ? 0 : r.below(4);
+    // half of the picks among the few constants that are not field amplitudes / wave numbers (exponents, transport coefficients, ...)
+    std::vector<std::string> cst;
+    for (auto& n : el) if (ok(n) == 2 && n.rfind("a_", 0) != 0 && !(n.size() > 2 && n[n.size() - 2] == '_' && strchr("0xyzrt", n.back())) && !(n.size() > 3 && n[1] == '_')) cst.push_back(n);
+    const std::string& n = (!cst.empty() && r.coin()) ? cst[(size_t)r.below((int)cst.size())] : el[(size_t)r.below((int)el.size())];
+    int kind = ok(n) == 1 ? 0 : r.below(6);
     switch (kind) {
       case 0: d.set(n, 0.0L); what += n + "=0 "; break;
       case 1: d.set(n, r.sgn()); what += n + "=+-1 "; break;
-      case 2: d.set(n, (long double)(2 + r.below(2))); what += n + "=int "; break;
+      case 2: d.set(n, r.sgn() * (long double)(2 + r.below(15))); what += n + "=int "; break;                 // +-2..16
+      case 3: d.set(n, r.sgn() * ((long double)r.below(5) + 0.5L)); what += n + "=half-int "; break;        // +-0.5..4.5
       default: { const std::string& m = el[(size_t)r.below((int)el.size())]; if (ok(m) == 2 && m != n) { d.set(n, d.get(m)); what += n + "=" + m + " "; } break; }
     }
   }
@@ -82,21 +96,72 @@ void stretch_draw(vh::Rng& r, const Sol& s, Draw& d, const std::vector<std::stri
       for (auto& n : names) if (stretch_const(n)) cand.push_back(n);
       if (cand.empty()) continue;
       const std::string& n = cand[(size_t)r.below((int)cand.size())];
-      long double f = p10(-3, 3); d.set(n, d.get(n) * f); what += n + "*=" + std::to_string((double)f) + " ";
+      long double f = r.below(6) == 0 ? p10(-18, 18) : p10(-3, 3); d.set(n, d.get(n) * f); what += n + "*=" + std::to_string((double)f) + " ";
     } else if (kind == 2) {   // one wave number
       for (auto& n : names) if (n.rfind("a_", 0) == 0) cand.push_back(n);
       if (cand.empty()) continue;
       const std::string& n = cand[(size_t)r.below((int)cand.size())];
       long double f = p10(-2, 1.5L); d.set(n, d.get(n) * f); what += n + "*=" + std::to_string((double)f) + " ";
     } else {                  // a whole field (offset and amplitudes together keep its sign): rho_*, p_*, T_*, u_*, rho_N_*, ...
-      for (auto& n : names) { size_t us = n.rfind('_'); if (us != std::string::npos && us > 0 && n.rfind("a_", 0) != 0 && !stretch_const(n) && n.size() - us == 2 && strchr("01xyzrt", n[us + 1])) cand.push_back(n.substr(0, us + 1)); }
+      for (auto& n : names) { size_t us = n.rfind('_'); if (us != std::string::npos && us > 0 && n.rfind("a_", 0) != 0 && n.size() - us == 2 && strchr("012xyzrt", n[us + 1])) cand.push_back(n.substr(0, us + 1)); }
       if (cand.empty()) continue;
       std::string pre = cand[(size_t)r.below((int)cand.size())];
-      long double f = p10(-3, 4);
-      for (auto& n : names) if (n.rfind(pre, 0) == 0 && n.size() == pre.size() + 1 && strchr("01xyzrt", n[pre.size()]) && !stretch_const(n)) d.set(n, d.get(n) * f);
+      // whole families (k_0,k_1,k_2 / rho_0,rho_x,.. / T_0,T_x): mostly within a few decades, one time in six over many (quantities in tiny or huge units)
+      long double f = r.below(6) == 0 ? p10(-17, 17) : p10(-3, 4);
+      for (auto& n : names) if (n.rfind(pre, 0) == 0 && n.size() == pre.size() + 1 && strchr("012xyzrt", n[pre.size()])) d.set(n, d.get(n) * f);
       what += pre + "* *=" + std::to_string((double)f) + " ";
     }
   }
+}
+void make_point(vh::Rng& r, const Sol& s, const std::map<std::string, long double>& P, const long double* prev, bool have_prev, bool same_as_prev, long double* xs, PointInfo& info) {
+  const int n = s.nargs;
+  for (int i = 0; i < 4; i++) xs[i] = 0;
+  s.point(r, xs, n);
+  long double fresh[4]; for (int i = 0; i < 4; i++) fresh[i] = xs[i];
+  auto par = [&](const char* a, const char* b) { auto it = P.find(a); if (it != P.end()) return it->second; it = P.find(b); return it != P.end() ? it->second : 1.0L; };
+  // a coordinate exactly 0 (axes, t = 0) where the domain allows it
+  if (s.zero_coord_from >= 0 && r.below(6) == 0) { int ci = s.zero_coord_from + r.below(std::max(1, n - s.zero_coord_from)); if (ci < n) { xs[ci] = 0; info.kind += "axis "; } }
+  // a coordinate very close to (but not on) an axis: 10^-U(1,7), positive where the domain requires it
+  if (s.zero_coord_from >= 0 && r.below(6) == 0) {
+    int ci = r.below(n);
+    long double tiny = powl(10.0L, -r.uni(1.0L, 7.0L));
+    xs[ci] = (ci < s.zero_coord_from || r.coin()) ? tiny : -tiny;
+    info.kind += "near-axis ";
+  }
+  if (s.point == box_point) {
+    int sk = r.below(24);
+    if (sk == 0) { for (int i = 1; i < n; i++) xs[i] = xs[0]; info.kind += "all-equal "; }
+    else if (sk == 1 || sk == 2) {
+      static const long double F[] = {1.0L, 0.5L, 2.0L, -1.0L, 0.25L, 1.5L, -0.5L};
+      int ci = r.below(n);
+      static const char* LN[4] = {"Lx", "Ly", "Lz", "L"};
+      xs[ci] = par(LN[std::min(ci, 3)], "L") * F[r.below(7)]; info.kind += "tied-to-L ";
+    }
+    else if (sk == 3) { xs[r.below(n)] = (long double)(r.below(9) - 4); info.kind += "integer "; }
+    else if (sk == 4) { xs[r.below(n)] = (long double)(r.below(17) - 8) / 2; info.kind += "half-integer "; }
+    else if (sk == 5 || sk == 6) { for (int i = 0; i < n; i++) xs[i] *= 5; info.far_pt = true; info.kind += "5x-box "; }
+    else if (sk == 7) { if (r.coin()) { for (int i = 0; i < n; i++) xs[i] *= 50; info.far_pt = true; info.kind += "50x-box "; } }
+  }
+  if (s.nodal && r.below(10) == 0) { s.nodal(r, P, xs, n); info.kind += "nodal "; }
+  if (have_prev) {
+    if (same_as_prev) { for (int i = 0; i < 4; i++) xs[i] = prev[i]; info.kind = "same-point "; }
+    else {
+      int v = r.below(14);
+      if (v <= 3) {
+        long double keep[4]; for (int i = 0; i < 4; i++) keep[i] = xs[i];
+        for (int i = 0; i < 4; i++) xs[i] = prev[i];
+        int ci = r.below(n);
+        if (v == 0) { xs[ci] = fresh[ci]; info.kind = "prev-one-coordinate-redrawn "; }
+        else if (v == 1) { xs[n - 1] = fresh[n - 1]; info.kind = "prev-last-coordinate-redrawn "; }
+        else if (v == 2) { long double d = powl(10.0L, -r.uni(5.0L, 12.0L)); xs[ci] = prev[ci] == 0 ? d : prev[ci] * (1 + d); info.kind = "prev-nudged "; }
+        else if (s.point == box_point && n > 1) { int cj = (ci + 1 + r.below(n - 1)) % n; xs[ci] = prev[cj]; info.kind = "prev-coordinate-copied "; }
+        else { for (int i = 0; i < 4; i++) xs[i] = keep[i]; }
+      }
+    }
+  }
+  info.irregular = info.far_pt;
+  for (int i = 0; i < n; i++) if (fabsl(xs[i]) < 0.05L) info.irregular = true;
+  if (info.kind.find("nodal") != std::string::npos || info.kind.find("integer") != std::string::npos || info.kind.find("tied") != std::string::npos) info.irregular = true;
 }
 void box_point(vh::Rng& r, long double* x, int n) { for (int i = 0; i < n; i++) x[i] = r.uni(-2.0L, 2.0L); }
 }  // namespace orc
